@@ -312,8 +312,12 @@ def optimize_mapper(
 
         new_method_defs = []
 
+        from copy import deepcopy
+
         for mname in sorted(method_defs):
-            mdef = method_defs[mname]
+            # The module ASTs are cached and shared with other uses of the
+            # optimizer: the (in-place) rewriting must not leak into them.
+            mdef = deepcopy(method_defs[mname])
 
             mdef = _replace(mdef,
                     args=_replace(mdef.args,
